@@ -4,7 +4,7 @@ from typing import Optional, cast
 from flamapy.core.models import VariabilityModel
 from flamapy.core.exceptions import FlamaException
 from flamapy.core.operations import EstimatedConfigurationsNumber
-from flamapy.metamodels.fm_metamodel.models import FeatureModel, Feature
+from flamapy.metamodels.fm_metamodel.models import FeatureModel, Feature, Relation
 
 
 class FMEstimatedConfigurationsNumber(EstimatedConfigurationsNumber):
@@ -52,4 +52,21 @@ def count_configurations_rec(feature: Feature) -> int:
         elif relation.is_or():
             children_counts = [count_configurations_rec(f) + 1 for f in relation.children]
             counts.append(math.prod(children_counts) - 1)
+        elif relation.is_mutex():
+            counts.append(sum((count_configurations_rec(f) for f in relation.children)) + 1)
+        elif relation.is_cardinal():
+            counts.append(count_cardinality_group(relation))
     return math.prod(counts)
+
+
+def count_cardinality_group(relation: Relation) -> int:
+    """Number of ways of selecting between card_min and card_max children of the group
+    (elementary symmetric sums of the children's counts)."""
+    n_children = len(relation.children)
+    card_max = n_children if relation.card_max == -1 else min(relation.card_max, n_children)
+    sums = [1] + [0] * n_children
+    for child in relation.children:
+        child_count = count_configurations_rec(child)
+        for k in range(n_children, 0, -1):
+            sums[k] += sums[k - 1] * child_count
+    return sum(sums[relation.card_min:card_max + 1])
